@@ -720,6 +720,10 @@ pub fn quant_bodies(level: u8) -> Vec<Body> {
         Body::Map(vec![p[7].clone()]),
         Body::Map(vec![p[0].clone(), p[5].clone()]),
         Body::Map(vec![e("f", list(vec![st("*a*"), st("*b*"), st("?c")]))]),
+        // a row that is itself a plain list of several kinds (an or-group of searches inside the
+        // group the quantifier counts)
+        Body::Seq(vec![vec![e("g", list(vec![st("*a*"), st("?b$")]))], vec![p[0].clone()]]),
+        Body::Seq(vec![vec![e("f", list(vec![st("a*"), st("?b"), st("ib")]))], vec![p[5].clone()], vec![p[6].clone()]]),
     ];
     if level >= 1 {
         v.extend(vec![
